@@ -9,6 +9,12 @@ pub mod fmrun {
     pub fn pedersen(d: tari_bulletproofs_plus::generators::pedersen_gens::ExtensionDegree) -> tari_bulletproofs_plus::PedersenGens<P> {
         crate::fm::fm_pedersen(d)
     }
+    pub fn other_point(tag: u64) -> P {
+        crate::fm::FP::named(&format!("other-{}", tag))
+    }
+    pub fn undecodable() -> [u8; 32] {
+        [0xee; 32]
+    }
     include!("generic.rs");
 }
 pub mod rrun {
@@ -16,6 +22,14 @@ pub mod rrun {
     pub const GROUP: &str = "ristretto";
     pub fn pedersen(d: tari_bulletproofs_plus::generators::pedersen_gens::ExtensionDegree) -> tari_bulletproofs_plus::PedersenGens<P> {
         tari_bulletproofs_plus::ristretto::create_pedersen_gens_with_extension_degree(d)
+    }
+    pub fn other_point(tag: u64) -> P {
+        let mut b = [7u8; 64];
+        b[..8].copy_from_slice(&tag.to_le_bytes());
+        P::from_uniform_bytes(&b)
+    }
+    pub fn undecodable() -> [u8; 32] {
+        [0xff; 32]
     }
     include!("generic.rs");
 }
@@ -58,6 +72,10 @@ fn main() {
             scen_gens::c11(&opts, &mut out, &labels)
         },
         "C12" => scen_gens::c12(&opts, &mut out),
+        "C05" => {
+            fmrun::c05_run(&opts, &mut out);
+            rrun::c05_run(&opts, &mut out);
+        },
         "C07" => scen_recover::c07(&opts, &mut out),
         "C08" => scen_recover::c08(&opts, &mut out),
         "C09" => scen_recover::c09(&opts, &mut out),
